@@ -420,7 +420,8 @@ type layer struct {
 	prefetchSize   int64
 	prefetchSizeMu sync.Mutex
 
-	r reader.Reader
+	r   reader.Reader
+	rMu sync.Mutex // guards r: the layer is shared through the resolver's cache, its holders verify and read it concurrently
 
 	closed   bool
 	closedMu sync.Mutex
@@ -433,8 +434,8 @@ type layer struct {
 
 func (l *layer) Info() Info {
 	var readTime time.Time
-	if l.r != nil {
-		readTime = l.r.LastOnDemandReadTime()
+	if r := l.verifiedReader(); r != nil {
+		readTime = r.LastOnDemandReadTime()
 	}
 	return Info{
 		Digest:       l.desc.Digest,
@@ -467,10 +468,19 @@ func (l *layer) Refresh(ctx context.Context, hosts source.RegistryHosts, refspec
 	return l.blob.Refresh(ctx, hosts, refspec, desc)
 }
 
+// verifiedReader returns the reader set by Verify or SkipVerify (nil before).
+func (l *layer) verifiedReader() reader.Reader {
+	l.rMu.Lock()
+	defer l.rMu.Unlock()
+	return l.r
+}
+
 func (l *layer) Verify(tocDigest digest.Digest) (err error) {
 	if l.isClosed() {
 		return fmt.Errorf("layer is already closed")
 	}
+	l.rMu.Lock()
+	defer l.rMu.Unlock()
 	if l.r != nil {
 		// This layer object is shared through the resolver's cache and was already verified or
 		// skip-verified by an earlier mount. The digest requested now must still be checked.
@@ -482,6 +492,8 @@ func (l *layer) Verify(tocDigest digest.Digest) (err error) {
 }
 
 func (l *layer) SkipVerify() {
+	l.rMu.Lock()
+	defer l.rMu.Unlock()
 	if l.r != nil {
 		return
 	}
@@ -625,10 +637,11 @@ func (l *layer) RootNode(baseInode uint32) (fusefs.InodeEmbedder, error) {
 	if l.isClosed() {
 		return nil, fmt.Errorf("layer is already closed")
 	}
-	if l.r == nil {
+	r := l.verifiedReader()
+	if r == nil {
 		return nil, fmt.Errorf("layer hasn't been verified yet")
 	}
-	return newNode(l.desc.Digest, l.r, l.blob, baseInode, l.resolver.overlayOpaqueType, l.passThrough, l.logFileAccess)
+	return newNode(l.desc.Digest, r, l.blob, baseInode, l.resolver.overlayOpaqueType, l.passThrough, l.logFileAccess)
 }
 
 func (l *layer) ReadAt(p []byte, offset int64, opts ...remote.Option) (int, error) {
@@ -644,8 +657,8 @@ func (l *layer) close() error {
 	l.closed = true
 	defer l.blob.done(true) // Close reader first, then close the blob
 	l.verifiableReader.Close()
-	if l.r != nil {
-		return l.r.Close()
+	if r := l.verifiedReader(); r != nil {
+		return r.Close()
 	}
 	return nil
 }
